@@ -46,6 +46,20 @@ pub struct InfoPacket {
     pub raw_password: Vec<u8>,
 }
 
+thread_local! {
+    /// the largest user-data length seen in a send-data request since the last reset (c12/confirm_active_limit measures
+    /// the confirm-active PDU with it)
+    static LARGEST_SDRQ: std::cell::Cell<usize> = std::cell::Cell::new(0);
+}
+
+pub fn reset_largest_send_data_request() {
+    LARGEST_SDRQ.with(|c| c.set(0));
+}
+
+pub fn largest_send_data_request() -> usize {
+    LARGEST_SDRQ.with(|c| c.get())
+}
+
 #[derive(Clone, Debug, PartialEq)]
 pub struct CapSet {
     pub typ: u16,
@@ -551,6 +565,7 @@ pub fn decode_mcs(data: &[u8], expect_info: bool) -> PResult<ClientMsg> {
             if len != r.left() {
                 return Err("mcs/sdrq/length/mismatch".into());
             }
+            LARGEST_SDRQ.with(|c| c.set(c.get().max(len)));
             let payload = r.rest();
             decode_channel_payload(initiator, channel, payload, expect_info)
         }
